@@ -397,7 +397,11 @@ class Origins:
         if k in ("copy", "move"):
             return self.place(op["place"], _seen)
         if k == "const":
-            return {(("const", op["s"]), ())}
+            # a named constant item (`const BYTE_BITS: usize = 8`) is the number it evaluates to
+            sv = op["s"]
+            if "int" in op and op.get("ty") not in ("bool", "char") and not re.match(r"^(const )?-?\d", sv.strip()):
+                sv = op["int"]
+            return {(("const", sv), ())}
         return {(("const", "?"), ())}
 
     def place(self, pl, _seen=None):
@@ -507,6 +511,8 @@ def callee_tag(ce):
     """(container tag, name) for a callee record"""
     if ce is None:
         return ("?", "?")
+    if (ce.get("path") or "").endswith("iter::zip") and not ce.get("trait"):
+        return ("Iterator", "zip")  # the free function `std::iter::zip(a, b)` = a.into_iter().zip(b)
     name = ce["name"]
     tr = ce.get("trait")
     if tr:
